@@ -82,7 +82,7 @@ C20MutateReason(e, s) ==
   IF e.res # "ok" THEN "mutate_" \o e.res
   ELSE IF e.which = "packet" THEN
          (IF e.other # (IF e.site.side = "orig" THEN s.oclone ELSE s.oorig)
-          THEN "shared_" \o e.site.kind \o "_" \o e.site.side ELSE "")
+          THEN "shared_" \o e.site.kind \o "_" \o e.site.side \o (IF e.site.prekind # "" THEN "_after_own_change" ELSE "") ELSE "")
   ELSE IF e.other # e.before THEN "hshared_" \o e.site.kind \o "_" \o e.site.side
   ELSE ""
 
@@ -173,12 +173,15 @@ Reason(e, s) ==
                           ELSE IF e.kind = "image" THEN C03ImageReason(e) ELSE C03BytesReason(e)
     [] e.ev = "view" -> C03ViewReason(e)
     [] e.ev = "clone" -> C20CloneReason(e)
+    [] e.ev = "premutate" -> IF e.res # "ok" THEN "mutate_" \o e.res ELSE ""
     [] e.ev = "mutate" -> C20MutateReason(e, s)
     [] OTHER -> "unknown_event"
 
 Step(e, s) ==
   CASE e.ev = "marshal" -> [s EXCEPT !.ref = e.bytes, !.href = e.hbytes]
     [] e.ev = "clone" -> [s EXCEPT !.oorig = e.orig, !.oclone = e.clone]
+    \* the observed side changed itself: from now on that is what it must keep reporting
+    [] e.ev = "premutate" -> IF e.site.side = "orig" THEN [s EXCEPT !.oclone = e.other] ELSE [s EXCEPT !.oorig = e.other]
     [] OTHER -> s
 
 Init == l = 1 /\ st = Fresh
